@@ -647,20 +647,41 @@ var TinyPrograms = []QProgram{
 	{Cap: 1, Producers: []int{1, 1}, Consumers: []int{-1}, Closer: true, RemoveAll: true},
 }
 
+// MediumPrograms are explored completely UNDER A PREEMPTION BOUND of two
+// (iterative context bounding): every schedule in which at most two times a
+// goroutine that could continue is switched out.
+var MediumPrograms = []QProgram{
+	{Cap: 1, Producers: []int{2, 2}, Consumers: []int{-1, -1}, Closer: true},
+	{Cap: 2, Producers: []int{3}, Consumers: []int{-1, -1}, Closer: true},
+	{Cap: 1, Producers: []int{2, 1}, Consumers: []int{-1}, Closer: true, RemoveAll: true},
+	{Cap: 2, Producers: []int{2, 2}, Consumers: []int{2, 2}},
+	{Cap: 1, Producers: []int{1, 1, 1}, Consumers: []int{-1}, Closer: true},
+	{Cap: 3, Producers: []int{2, 2}, Consumers: []int{-1}, Closer: true, Observers: 1},
+	{Cap: 1, Producers: []int{2}, Consumers: []int{-1, -1}, Closer: true, RemoveAll: true},
+	{Cap: 2, Producers: []int{1, 2}, Consumers: []int{-1, -1, -1}, Closer: true},
+}
+
+// RunM1Bounded explores MediumPrograms[idx] with at most two preemptions.
+func RunM1Bounded(c *core.Ctx, idx int, prop string) {
+	runDFS(c, MediumPrograms[idx%len(MediumPrograms)], idx, prop, 2, core.Tiered(c.Tier, 6000, 600000), "bounded2")
+}
+
 // RunM1Exhaustive explores all schedules of TinyPrograms[idx] depth-first (up
 // to a budget) and applies every oracle of C04/C05 to each.  prop selects what
 // is reported.
 func RunM1Exhaustive(c *core.Ctx, idx int, prop string) {
+	runDFS(c, TinyPrograms[idx%len(TinyPrograms)], idx, prop, 0, core.Tiered(c.Tier, 4000, 400000), "exhaustive")
+}
+
+func runDFS(c *core.Ctx, p QProgram, idx int, prop string, maxPreempt, budget int, label string) {
 	if m1Disabled(c) {
 		return
 	}
-	p := TinyPrograms[idx%len(TinyPrograms)]
-	budget := core.Tiered(c.Tier, 4000, 400000)
 	var forced []int
 	explored := 0
 	complete := false
 	for explored < budget {
-		res := RunQProgramForced(core.NewRng(1234, uint64(idx)), p, forced, true) // a fixed stream: the program itself must be the same in every run
+		res := RunQProgramBounded(core.NewRng(1234, uint64(idx)), p, forced, true, maxPreempt) // a fixed stream: the program itself must be the same in every run
 		explored++
 		cs := map[string]any{"program": p.String(), "history": res.Hist.Strings()}
 		if res.Sched.Unrepresentable() {
@@ -706,14 +727,14 @@ func RunM1Exhaustive(c *core.Ctx, idx int, prop string) {
 		}
 		forced = append(forced, ch[k][1]+1)
 	}
-	c.CoverN("m1.exhaustive.schedules", explored)
+	c.CoverN("m1."+label+".schedules", explored)
 	if complete {
-		c.Cover("m1.exhaustive.programs-explored-completely")
+		c.Cover("m1." + label + ".programs-explored-completely")
 	} else {
-		c.Cover("m1.exhaustive.programs-cut-at-the-budget")
+		c.Cover("m1." + label + ".programs-cut-at-the-budget")
 	}
-	if c.WantSample("m1-exhaustive") {
-		c.Sample("m1-exhaustive", map[string]any{"program": p.String(), "schedules_explored": explored, "complete": complete})
+	if c.WantSample("m1-" + label) {
+		c.Sample("m1-"+label, map[string]any{"program": p.String(), "schedules_explored": explored, "complete": complete, "preemption_bound": maxPreempt})
 	}
 }
 
